@@ -166,11 +166,11 @@ def renderRollup (keys : List Bytes) (ms : List Mapping) : Bytes :=
 
 /-! ### what the API promises -/
 
-def bPrivateClean : Bytes := ofString "Private_Clean"
-def bPrivateDirty : Bytes := ofString "Private_Dirty"
-def bPrivateHugetlb : Bytes := ofString "Private_Hugetlb"
-def bPss : Bytes := ofString "Pss"
-def bSwap : Bytes := ofString "Swap"
+def bPrivateClean : Bytes := [80, 114, 105, 118, 97, 116, 101, 95, 67, 108, 101, 97, 110]
+def bPrivateDirty : Bytes := [80, 114, 105, 118, 97, 116, 101, 95, 68, 105, 114, 116, 121]
+def bPrivateHugetlb : Bytes := [80, 114, 105, 118, 97, 116, 101, 95, 72, 117, 103, 101, 116, 108, 98]
+def bPss : Bytes := [80, 115, 115]
+def bSwap : Bytes := [83, 119, 97, 112]
 
 /-- USS/PSS/swap in bytes: sums over all mappings of the private, proportional, swapped kB -/
 def specFull (ms : List Mapping) : Full :=
@@ -186,16 +186,16 @@ def specFullInfo (pagesize : Nat) (r : Statm) (ms : List Mapping) : List Nat :=
     (rss, size, pss, shared_clean, shared_dirty, private_clean, private_dirty, referenced,
     anonymous, swap) -/
 def rowKeys : List Bytes :=
-  [ofString "Rss", ofString "Size", ofString "Pss", ofString "Shared_Clean", ofString "Shared_Dirty",
-   ofString "Private_Clean", ofString "Private_Dirty", ofString "Referenced", ofString "Anonymous",
-   ofString "Swap"]
+  [[82, 115, 115], [83, 105, 122, 101], [80, 115, 115], [83, 104, 97, 114, 101, 100, 95, 67, 108, 101, 97, 110], [83, 104, 97, 114, 101, 100, 95, 68, 105, 114, 116, 121],
+   [80, 114, 105, 118, 97, 116, 101, 95, 67, 108, 101, 97, 110], [80, 114, 105, 118, 97, 116, 101, 95, 68, 105, 114, 116, 121], [82, 101, 102, 101, 114, 101, 110, 99, 101, 100], [65, 110, 111, 110, 121, 109, 111, 117, 115],
+   [83, 119, 97, 112]]
 
 def extNames : List String :=
   ["addr", "perms", "path", "rss", "size", "pss", "shared_clean", "shared_dirty", "private_clean",
    "private_dirty", "referenced", "anonymous", "swap"]
 def groupedNames : List String := extNames.drop 2
 
-def anon : Bytes := ofString "[anon]"
+def anon : Bytes := [91, 97, 110, 111, 110, 93]
 
 /-- the row promised for mapping `m`: its own address range, permissions, path, figures (bytes) -/
 def specRow (m : Mapping) : Row :=
